@@ -11,6 +11,8 @@ import (
 	"strings"
 	"sync"
 	"sync/atomic"
+	"time"
+	"verif/harness/ribhist"
 
 	"github.com/openconfig/gribigo/rib"
 	"github.com/openconfig/gribigo/rib/reconciler"
@@ -262,16 +264,18 @@ func one(u []slot, in, tg state, tv int, base uint64) (string, []fail) {
 func Run(rep *report.Report, tier string) {
 	outcomes := map[string]int{}
 	tot := map[string]int{}
-	runUniverse(rep, tier, "main", universe(tier == "thorough"), outcomes, tot)
-	runUniverse(rep, tier, "entry-kinds", kindsUniverse(), outcomes, tot)
+	// the small universe first: what it does not use of its share of the budget is left to the large one
+	end := ribhist.Budget(tier, 150*time.Second, 25*time.Minute)
+	rep.Set("exhaustive", true)
+	runUniverse(rep, tier, "entry-kinds", kindsUniverse(), outcomes, tot, time.Now().Add(time.Until(end)/2))
+	runUniverse(rep, tier, "main", universe(tier == "thorough"), outcomes, tot, end)
 	rep.Set("catalogue_states", tot["cat"])
 	rep.Set("evaluations", tot["jobs"])
 	rep.Set("distinct_nontrivial", tot["jobs"]-outcomes["equal/0-ops"])
 	rep.Set("states", tot["cat"])
 	rep.Set("transitions", tot["jobs"])
 	rep.Set("traces_validated_against_impl", tot["jobs"])
-	rep.Set("exhaustive", true)
-	rep.Set("rule", "two universes (main; entry-kinds: IPv6 and MPLS with same-instance, cross-instance and metadata variants); catalogue = every reference-closed choice of one payload variant (or absence) per key of the universe; cases = ordered pairs of catalogue states x variants of a target-only network instance x map iteration orders (quick: ascending, descending; thorough: also their rotations by 1 and 2 = all orders of a 3-element map); trivial = equal pair without target-only entries")
+	rep.Set("rule", "two universes (main; entry-kinds: IPv6 and MPLS with same-instance, cross-instance and metadata variants); catalogue = every reference-closed choice of one payload variant (or absence) per key of the universe; cases = ordered pairs of catalogue states x variants of a target-only network instance x map iteration orders (ascending, descending; thorough: the core cases also under their rotations by 1 and 2 = all orders of a 3-element map); trivial = equal pair without target-only entries")
 	keys := make([]string, 0, len(outcomes))
 	for k := range outcomes {
 		keys = append(keys, k)
@@ -281,26 +285,43 @@ func Run(rep *report.Report, tier string) {
 	rep.Set("outcome_histogram", outcomes)
 }
 
-func runUniverse(rep *report.Report, tier, uname string, u []slot, outcomes map[string]int, tot map[string]int) {
-	orders := rt.MapOrders(tier == "thorough")
+func runUniverse(rep *report.Report, tier, uname string, u []slot, outcomes map[string]int, tot map[string]int, deadline time.Time) {
 	cat := catalogue(u)
 	type job struct{ i, j, tv int }
-	var jobs []job
+	var all, core []job
 	for i := range cat {
 		for j := range cat {
 			for tv := range tonly {
-				// the target-only instance is combined with every pair in thorough, with the diagonal and the
-				// empty intended / empty target rows in quick
-				if tier == "thorough" || tv == 0 || i == j || i == 0 || j == 0 {
-					jobs = append(jobs, job{i, j, tv})
+				// core: the diagonal, the empty intended / empty target rows and every pair without the
+				// target-only instance; quick runs the core, thorough every (pair, target-only variant)
+				isCore := tv == 0 || i == j || i == 0 || j == 0
+				if isCore {
+					core = append(core, job{i, j, tv})
+				}
+				if tier == "thorough" || isCore {
+					all = append(all, job{i, j, tv})
 				}
 			}
 		}
 	}
+	// passes: (map iteration order, jobs). The order in which operations of one category are emitted, and with it
+	// the id each one gets, follows the order of the maps the reconciler (and the RIB) walk.
+	type pass struct {
+		order int
+		jobs  []job
+	}
+	passes := []pass{{0, all}, {1, all}}
+	if tier == "thorough" {
+		for _, o := range rt.MapOrders(true)[2:] {
+			passes = append(passes, pass{o, core})
+		}
+	}
 	var mu sync.Mutex
-	// both iteration orders of the maps the reconciler (and the RIB) walk: the order in which operations of one
-	// category are emitted, and with it the id each one gets, follows the map order
-	for _, order := range orders {
+	done, planned := 0, 0
+	complete := true
+	for _, ps := range passes {
+		planned += len(ps.jobs)
+		order := ps.order
 		rt.MapOrder = order
 		var wg sync.WaitGroup
 		ch := make(chan job)
@@ -313,28 +334,38 @@ func runUniverse(rep *report.Report, tier, uname string, u []slot, outcomes map[
 					if (jb.i+jb.j)%2 == 1 {
 						base = 1000
 					}
-					rep.Guard("reconcile "+uname, map[string]any{"intended": describe(u, cat[jb.i]), "target": describe(u, cat[jb.j]), "universe": uname, "target_only_instance": tonly[jb.tv].name, "id_base": base, "map_order": rt.MapOrderName(order)}, func() {
+					replay := map[string]any{"intended": describe(u, cat[jb.i]), "target": describe(u, cat[jb.j]), "universe": uname, "target_only_instance": tonly[jb.tv].name, "id_base": base, "map_order": rt.MapOrderName(order)}
+					rep.Guard("reconcile "+uname, replay, func() {
 						oc, fs := one(u, cat[jb.i], cat[jb.j], jb.tv, base)
 						mu.Lock()
 						outcomes[oc]++
+						done++
 						mu.Unlock()
 						for _, f := range fs {
-							rep.Violate(f.sig, f.what, map[string]any{"intended": describe(u, cat[jb.i]), "target": describe(u, cat[jb.j]), "universe": uname, "target_only_instance": tonly[jb.tv].name, "id_base": base, "map_order": rt.MapOrderName(order)})
+							rep.Violate(f.sig, f.what, replay)
 						}
 					})
 				}
 			}()
 		}
-		for _, jb := range jobs {
+		for n, jb := range ps.jobs {
+			if n%256 == 0 && time.Now().After(deadline) {
+				complete = false
+				break
+			}
 			ch <- jb
 		}
 		close(ch)
 		wg.Wait()
+		if !complete {
+			break
+		}
 	}
 	rt.MapOrder = 0
+	rep.And("exhaustive", complete)
 	tot["cat"] += len(cat)
-	tot["jobs"] += len(orders) * len(jobs)
-	rep.Set("universe:"+uname, map[string]any{"slots": len(u), "catalogue_states": len(cat), "pairs_x_target_only_variants": len(jobs), "map_orders": len(orders)})
+	tot["jobs"] += done
+	rep.Set("universe:"+uname, map[string]any{"slots": len(u), "catalogue_states": len(cat), "cases_planned": planned, "cases_run": done, "complete": complete, "passes": len(passes)})
 	rep.Sample(map[string]any{"intended": describe(u, cat[len(cat)/2]), "target": describe(u, cat[len(cat)/3]), "target_only_instance": "chain"})
 	rep.Sample(map[string]any{"intended": describe(u, cat[len(cat)-1]), "target": describe(u, cat[0]), "target_only_instance": "absent"})
 }
